@@ -278,6 +278,89 @@ static int url_wellformed(const char *s)
     return 1;
 }
 
+/* port rule: filled from the service database only when a protocol but no port was given and the lookups succeed */
+static int service_port(const char *w, long ns, char *portbuf, size_t n)
+{
+    int is_proto = (!strcmp(w, "tcp") && (ns & 1)) || (!strcmp(w, "udp") && (ns & 2)) || (!strcmp(w, "ip") && (ns & 32));
+    int port = 0; const char *sp = NULL;
+    if (is_proto) { probe_hit("proto_is_protocol_name"); return 0; }
+    if (!strcmp(w, "http") && (ns & 4)) { port = 80; sp = "tcp"; }
+    else if (!strcmp(w, "ftp") && (ns & 16)) { port = 21; sp = "tcp"; }
+    else if (!strcmp(w, "dns") && (ns & 8)) { port = 53; sp = "udp"; }
+    else if (!strcmp(w, "odd") && (ns & 64)) { sp = "sctp"; probe_hit("service_proto_missing"); }
+    if (sp && ((!strcmp(sp, "tcp") && (ns & 1)) || (!strcmp(sp, "udp") && (ns & 2)))) {
+        snprintf(portbuf, n, "%d", port);
+        probe_hit(!strcmp(sp, "tcp") ? "service_found_tcp" : "service_found_udp_only");
+        return 1;
+    }
+    if (sp && strcmp(sp, "sctp")) probe_hit("service_found_but_protocol_missing");
+    return 0;
+}
+static void canonical_text(const urlc_t *c, char *exp, size_t cap)
+{
+    size_t n = 0;
+    exp[0] = 0;
+    if (c->has[U_PROTO]) n += (size_t)snprintf(exp + n, cap - n, "%s:", c->proto);
+    if (c->has[U_HOST]) n += (size_t)snprintf(exp + n, cap - n, "//");
+    if (c->has[U_USER]) { n += (size_t)snprintf(exp + n, cap - n, "%s", c->user); if (c->has[U_PASSWD]) n += (size_t)snprintf(exp + n, cap - n, ":%s", c->passwd); n += (size_t)snprintf(exp + n, cap - n, "@"); }
+    if (c->has[U_HOST]) { n += (size_t)snprintf(exp + n, cap - n, "%s", c->host); if (c->has[U_PORT]) n += (size_t)snprintf(exp + n, cap - n, ":%s", c->port); }
+    if (c->has[U_PATH]) n += (size_t)snprintf(exp + n, cap - n, "%s", c->path);
+    if (c->has[U_QUERY]) n += (size_t)snprintf(exp + n, cap - n, "?%s", c->query);
+}
+static int url_wellformed(const char *s);
+/* "asm": a URL assembled from components through the setters, then unparsed and parsed again */
+static void exec_asm(const op_t *o, long ns)
+{
+    urlc_t want, got, got2, chk;
+    char *dst[7] = { want.proto, want.user, want.passwd, want.host, want.port, want.path, want.query };
+    size_t cap[7] = { 64, 64, 64, 64, 64, 256, 256 };
+    char exp[800], why[200], portbuf[16], *canon;
+    const unsigned char *q = o->s, *end = o->s + o->slen;
+    spif_url_t u, u2;
+    memset(&want, 0, sizeof(want));
+    for (int i = 0; i < 7 && q <= end; i++) {
+        const unsigned char *e = memchr(q, 1, (size_t)(end - q));
+        size_t n = e ? (size_t)(e - q) : (size_t)(end - q);
+        if (n >= cap[i] || memchr(q, 0, n)) return;
+        memcpy(dst[i], q, n); dst[i][n] = 0;
+        want.has[i] = (int)((o->a[0] >> i) & 1);
+        if (!want.has[i]) dst[i][0] = 0;
+        q = e ? e + 1 : end + 1;
+    }
+    /* inside the accepted shape and unambiguous?  Decided from the canonical text of the tuple itself */
+    canonical_text(&want, exp, sizeof(exp));
+    if (!url_wellformed(exp)) { probe_hit("asm_tuple_outside_shape"); return; }
+    ref_split(exp, &chk);
+    if (!comp_eq(&chk, &want, 0, why, sizeof(why))) { probe_hit("asm_tuple_ambiguous"); return; }
+    if (want.has[U_PATH] && want.path[0] != '/') return;
+    u = spif_url_new();
+    if (!u) sim_fail("MISMATCH(constructor)", "spif_url_new returned NULL");
+    if (want.has[U_PROTO]) spif_url_set_proto(u, spif_str_new_from_ptr((spif_charptr_t)want.proto));
+    if (want.has[U_USER]) spif_url_set_user(u, spif_str_new_from_ptr((spif_charptr_t)want.user));
+    if (want.has[U_PASSWD]) spif_url_set_passwd(u, spif_str_new_from_ptr((spif_charptr_t)want.passwd));
+    if (want.has[U_HOST]) spif_url_set_host(u, spif_str_new_from_ptr((spif_charptr_t)want.host));
+    if (want.has[U_PORT]) spif_url_set_port(u, spif_str_new_from_ptr((spif_charptr_t)want.port));
+    if (want.has[U_PATH]) spif_url_set_path(u, spif_str_new_from_ptr((spif_charptr_t)want.path));
+    if (want.has[U_QUERY]) spif_url_set_query(u, spif_str_new_from_ptr((spif_charptr_t)want.query));
+    get_components(u, &got, "assembled");
+    if (!comp_eq(&got, &want, 0, why, sizeof(why))) sim_fail("MISMATCH(components)", "assembled through the setters: %s", why);
+    if (!spif_url_unparse(u)) sim_fail("MISMATCH(unparse)", "unparse of an assembled URL returned FALSE");
+    canon = blockdup((const unsigned char *)SPIF_STR_STR(SPIF_STR(u)), (size_t)spif_str_get_len(SPIF_STR(u)));
+    if (strcmp(canon, exp)) sim_fail("MISMATCH(unparse)", "assembled URL unparsed to \"%.80s\", the canonical text is \"%.80s\"", canon, exp);
+    get_components(u, &got2, "after unparse");
+    if (!comp_eq(&got2, &want, 0, why, sizeof(why))) sim_fail("MISMATCH(unparse-changed-components)", "%s", why);
+    u2 = spif_url_new_from_ptr((spif_charptr_t)canon);
+    if (!u2) sim_fail("MISMATCH(constructor)", "spif_url_new_from_ptr returned NULL");
+    get_components(u2, &got2, "reparse");
+    if (want.has[U_PROTO] && !want.has[U_PORT] && service_port(want.proto, ns, portbuf, sizeof(portbuf))) { want.has[U_PORT] = 1; snprintf(want.port, sizeof(want.port), "%s", portbuf); }
+    if (!comp_eq(&got2, &want, 0, why, sizeof(why))) sim_fail("MISMATCH(roundtrip)", "assembled, unparsed to \"%.60s\" and parsed again: %s", canon, why);
+    probe_hit("assembled_url_roundtrip");
+    tr_printf("asm %.60s", canon);
+    spif_url_del(u2);
+    spif_url_del(u);
+    sim_free(canon);
+}
+
 static void exec_c14(const plan_t *p)
 {
     /* name-service table for this run */
@@ -297,6 +380,7 @@ static void exec_c14(const plan_t *p)
         int wellformed, expect_port = 0;
         char portbuf[16] = "";
         R.cur_op = o; R.cur_op_index = i; R.op_steps = 0;
+        if (!strcmp(o->kind, "asm") && o->has_s) { exec_asm(o, ns); continue; }
         if (strcmp(o->kind, "url") || !o->has_s) continue;
         txt = blockdup(o->s, o->slen);
         wellformed = url_wellformed(txt);
@@ -305,23 +389,7 @@ static void exec_c14(const plan_t *p)
         if (!u) sim_fail("MISMATCH(constructor)", "spif_url_new_from_ptr returned NULL");
         get_components(u, &got, "parse");
         ref_split(txt, &want);
-        /* port rule: filled from the service database only when a protocol but no port was given and the lookups succeed */
-        if (want.has[U_PROTO] && !want.has[U_PORT]) {
-            const char *w = want.proto;
-            int is_proto = (!strcmp(w, "tcp") && (ns & 1)) || (!strcmp(w, "udp") && (ns & 2)) || (!strcmp(w, "ip") && (ns & 32));
-            if (is_proto) probe_hit("proto_is_protocol_name");
-            else {
-                int port = 0; const char *sp = NULL;
-                if (!strcmp(w, "http") && (ns & 4)) { port = 80; sp = "tcp"; }
-                else if (!strcmp(w, "ftp") && (ns & 16)) { port = 21; sp = "tcp"; }
-                else if (!strcmp(w, "dns") && (ns & 8)) { port = 53; sp = "udp"; }
-                else if (!strcmp(w, "odd") && (ns & 64)) { sp = "sctp"; probe_hit("service_proto_missing"); }
-                if (sp && ((!strcmp(sp, "tcp") && (ns & 1)) || (!strcmp(sp, "udp") && (ns & 2)))) {
-                    expect_port = 1; snprintf(portbuf, sizeof(portbuf), "%d", port);
-                    probe_hit(!strcmp(sp, "tcp") ? "service_found_tcp" : "service_found_udp_only");
-                } else if (sp && strcmp(sp, "sctp")) probe_hit("service_found_but_protocol_missing");
-            }
-        }
+        if (want.has[U_PROTO] && !want.has[U_PORT]) expect_port = service_port(want.proto, ns, portbuf, sizeof(portbuf));
         if (expect_port) { want.has[U_PORT] = 1; snprintf(want.port, sizeof(want.port), "%s", portbuf); }
         if (!comp_eq(&got, &want, 0, why, sizeof(why))) {
             if (wellformed) sim_fail("MISMATCH(components)", "parsing \"%.80s\": %s", txt, why);
@@ -393,6 +461,20 @@ static void gen_c14(plan_t *p, rng_t *r)
             hasuser = hashost && rng_chance(r, 1, 3); haspw = hasuser && hasproto && rng_chance(r, 1, 2);
             hasport = hashost && hasproto && rng_chance(r, 1, 3);
             haspath = rng_chance(r, 2, 3) || !hashost; hasquery = rng_chance(r, 1, 3);
+            if (rng_chance(r, 1, 4)) {
+                /* the same shape, assembled through the setters instead of parsed from text */
+                char c[7][64]; long mask = 0; size_t m = 0;
+                static const char *empty = "";
+                snprintf(c[0], 64, "%s", hasproto ? protos[rng_below(r, 12)] : empty);
+                gen_word(r, c[1], 1, 6, "abcxyz019"); gen_word(r, c[2], 1, 6, "abc019::"); gen_word(r, c[3], 1, 12, "abcxyz019.-");
+                snprintf(c[4], 64, "%u", rng_below(r, 65536));
+                c[5][0] = '/'; gen_word(r, c[5] + 1, 0, 20, "abc/._-@:"); gen_word(r, c[6], 0, 20, "abc=&?/:@ ");
+                if (hasproto) mask |= 1; if (hasuser) mask |= 2; if (haspw) mask |= 4; if (hashost) mask |= 8; if (hasport) mask |= 16; if (haspath) mask |= 32; if (hasquery) mask |= 64;
+                for (int q = 0; q < 7; q++) { m += (size_t)snprintf(txt + m, sizeof(txt) - m, "%s%s", q ? "\001" : "", c[q]); }
+                o = plan_op(p, 0, "asm", 1, mask);
+                op_str(o, txt, m);
+                continue;
+            }
             if (hasproto) n += (size_t)snprintf(txt + n, sizeof(txt) - n, "%s:", protos[rng_below(r, 12)]);
             if (hashost && (hasproto ? rng_chance(r, 5, 6) : rng_chance(r, 1, 2))) n += (size_t)snprintf(txt + n, sizeof(txt) - n, "//");
             if (hasuser) { gen_word(r, w, 1, 6, "abcxyz019"); n += (size_t)snprintf(txt + n, sizeof(txt) - n, "%s", w); if (haspw) { gen_word(r, w, 1, 6, "abc019::"); n += (size_t)snprintf(txt + n, sizeof(txt) - n, ":%s", w); } n += (size_t)snprintf(txt + n, sizeof(txt) - n, "@"); }
